@@ -72,7 +72,12 @@ json.dump(errs, open(sys.argv[2], "w"))
 
 
 def _run_session(workdir, cfg, order, strategy="in memory", salt=0, fetch_all=True,
-                parse=True, cs=4, sizes=None, payload_fn=None, exit_flush=False):
+                parse=True, cs=4, sizes=None, payload_fn=None, exit_flush=False,
+                close_after=None, reuse_buffer=False):
+    # close_after: the accessor is closed after that many stores and the session goes on
+    #   with the SAME object (the caller makes sure the rest goes to other shards);
+    # reuse_buffer: every payload is handed over in ONE bytearray that the caller
+    #   overwrites for the next chunk
     """One store/close/reopen/fetch cycle on the real ShardedFileAccessor.
 
     cfg: dict(grid, pb, mb, sb, enc).  order: list of positions to store.
@@ -119,10 +124,20 @@ def _run_session(workdir, cfg, order, strategy="in memory", salt=0, fetch_all=Tr
                     os.unlink(q)
         acc = sfa.ShardedFileAccessor(d, strategy=strategy)
         try:
-            for pos in ([] if exit_flush else order):
+            shared = bytearray()
+            for n_done, pos in enumerate([] if exit_flush else order):
                 pay = (payload_fn or payload_for)(pos, salt)
+                if close_after is not None and n_done == close_after:
+                    try:
+                        acc.close()
+                    except Exception as e:
+                        rec["storeerr"].append({"pos": [-1, -1, -1], "cls": "midclose:" + type(e).__name__})
+                arg = pay
+                if reuse_buffer:
+                    shared[:] = pay
+                    arg = shared
                 try:
-                    acc.store_chunk(pay, KEY, coords_of(pos, cs, sizes))
+                    acc.store_chunk(arg, KEY, coords_of(pos, cs, sizes))
                     rec["stores"].append({"pos": list(pos), "pay": list(pay)})
                 except Exception as e:  # recorded, judged by TLC
                     rec["storeerr"].append({"pos": list(pos), "cls": type(e).__name__})
